@@ -624,5 +624,8 @@ func main() {
 	writeIfChanged(filepath.Join(outdir, "Layout.v"), genLayout(pkgs))
 	writeIfChanged(filepath.Join(outdir, "PanicSites.v"), genPanicSites(pkgs))
 	writeIfChanged(filepath.Join(outdir, "SharedState.v"), genSharedState(pkgs))
-	writeIfChanged(filepath.Join(outdir, "GoAst.v"), genGoAst(pkgs))
+	writeIfChanged(filepath.Join(outdir, "GoAst.v"), genGoAst(pkgs, astWhitelist))
+	writeIfChanged(filepath.Join(outdir, "GoAstRecv.v"), genGoAst(pkgs, astRecv))
+	writeIfChanged(filepath.Join(outdir, "GoAstStreams.v"), genGoAst(pkgs, astStreams))
+	writeIfChanged(filepath.Join(outdir, "GoAstSend.v"), genGoAst(pkgs, astSend))
 }
